@@ -1,10 +1,187 @@
-(* C14 — truncated model files are rejected.  Statements only. *)
-From PF Require Import Base.Bytes Formats.Stl Formats.StlProofs.
-Open Scope N_scope.
+(* C14 -- truncated model files are rejected; no hang, no fabricated geometry.  Statements only.
 
-(* binary STL: every strict prefix of a written file is rejected *)
+   Property text: "Decoding a strict prefix of a valid PLY (any encoding), binary STL, SPZ, PTS or .splat file either
+   reports an error or returns only data wholly present in the prefix - the complete mesh when nothing but trailing
+   framing was cut, or, for the record-streamed .splat format, exactly the splats fully contained.  The call
+   terminates in time proportional to the input and never returns placeholder vertices or faces."
+
+   One theorem per format, for every file and every cut (no size bound), about the executable models of the
+   decoders (Formats/Stl.v, Pts.v, Splat.v, Spz.v, PlyRead.v); the models are tied to the Go code on every check run
+   by decoding every strict prefix of generated files with the real decoders (Check/C14.v).
+   Termination of the models is by structural recursion (Coq accepts no other); the cost theorems bound the number of
+   record reads by the input present.  Wall-clock time of the Go runtime is observed (deadline), not proved. *)
+From Coq Require Import String.
+From PF Require Import Base.Bytes.
+From PF Require Formats.Stl Formats.StlProofs Formats.Splat Formats.Spz Formats.Pts Formats.PtsProofs.
+From PF Require Import Formats.PlyRead Formats.PrefixProofs.
+Open Scope list_scope.
+
+(* ---------------------------------------------------------------- binary STL *)
+(* every strict prefix of a written file is rejected (there is no trailing framing in an STL file) *)
 Theorem prefix_stl : forall hdr ts k,
-  length hdr = 80%nat -> bytes_ok hdr -> N.of_nat (length ts) < 4294967296 ->
-  (k < length (write hdr ts))%nat -> read (firstn k (write hdr ts)) = None.
-Proof. exact read_prefix_rejected. Qed.
+  length hdr = 80%nat -> bytes_ok hdr -> (N.of_nat (length ts) < 4294967296)%N ->
+  (k < length (Stl.write hdr ts))%nat -> Stl.read (firstn k (Stl.write hdr ts)) = None.
+Proof. exact StlProofs.read_prefix_rejected. Qed.
 Print Assumptions prefix_stl.
+
+(* ---------------------------------------------------------------- .splat (record streamed) *)
+(* the first k bytes of a written file decode to exactly the k/32 splats wholly contained, in order, and the reader
+   reports an error exactly when a record was cut (second component: true = no error) *)
+Theorem prefix_splat : forall rs k,
+  Forall Splat.raw_ok rs -> (k <= length (Splat.write_raw rs))%nat ->
+  Splat.read (firstn k (Splat.write_raw rs)) = (map Splat.dequantise (firstn (k / 32) rs), (k mod 32 =? 0)%nat).
+Proof. exact splat_prefix. Qed.
+Print Assumptions prefix_splat.
+
+(* ---------------------------------------------------------------- SPZ *)
+(* after gunzip: every strict prefix of the stream of a well-formed file (header + planar arrays of exactly the
+   announced lengths, any version / SH degree) is rejected -- the header or one of the array length checks fails *)
+Theorem prefix_spz_plain : forall h ps k,
+  Spz.header_ok h -> Spz.lengths_match h ps -> (k < length (Spz.encode_ref h ps))%nat ->
+  Spz.decode (firstn k (Spz.encode_ref h ps)) = None.
+Proof. exact spz_plain_prefix_rejected. Qed.
+Print Assumptions prefix_spz_plain.
+
+(* with the gzip layer: [inflate] is what compress/gzip delivers before it reports the end of input or an error;
+   the only assumption about it: a prefix of the compressed file inflates to a prefix of the plaintext (trusted, Go's
+   compress/gzip).  A cut file is rejected, or nothing of the plaintext is missing (only gzip's trailing framing was
+   cut) and the result is that of the complete file. *)
+Theorem prefix_spz : forall (inflate : list N -> list N),
+  (forall z k, exists j, inflate (firstn k z) = firstn j (inflate z)) ->
+  forall z h ps k,
+  inflate z = Spz.encode_ref h ps -> Spz.header_ok h -> Spz.lengths_match h ps ->
+  spz_read inflate (firstn k z) = None \/
+  (inflate (firstn k z) = inflate z /\ spz_read inflate (firstn k z) = spz_read inflate z).
+Proof. exact spz_prefix. Qed.
+Print Assumptions prefix_spz.
+
+(* ---------------------------------------------------------------- PLY, binary encodings *)
+(* For every header and every body on which ply.ReadMesh succeeds there is a threshold c -- the end of the data the
+   header promises (vertex records, then face lists) -- such that EVERY cut below c is reported as end of input and
+   every cut at or after c (only trailing bytes removed) yields the identical mesh.  A short body is an error, never
+   zero filled; this covers both byte orders, every property mix, list properties, quads and texture coordinates. *)
+Theorem prefix_ply_bin : forall hdr bytes m,
+  read_mesh {| pf_header := hdr; pf_body := BodyBin bytes |} = Ok m ->
+  exists c, (c <= length bytes)%nat /\
+    (forall k, (k < c)%nat -> read_mesh {| pf_header := hdr; pf_body := BodyBin (firstn k bytes) |} = Err EEof) /\
+    (forall k, (c <= k)%nat -> read_mesh {| pf_header := hdr; pf_body := BodyBin (firstn k bytes) |} = Ok m).
+Proof. exact ply_bin_prefix. Qed.
+Print Assumptions prefix_ply_bin.
+
+(* the vertex block: the threshold is exactly (number of vertices) * (record size) *)
+Theorem prefix_ply_bin_vertices : forall e bs size n bytes rows rest k,
+  read_vertices_bin e bs size n bytes = Ok (rows, rest) -> (k < n * size)%nat ->
+  read_vertices_bin e bs size n (firstn k bytes) = Err EEof.
+Proof. exact ply_bin_vertices_prefix. Qed.
+Print Assumptions prefix_ply_bin_vertices.
+
+(* ---------------------------------------------------------------- PLY header (all encodings), cut after j lines *)
+Theorem prefix_ply_header : forall hdr h j, parse_header hdr = Ok h ->
+  parse_header (firstn j hdr) = Err EEof \/ parse_header (firstn j hdr) = Ok h.
+Proof. exact ply_header_prefix. Qed.
+Print Assumptions prefix_ply_header.
+
+(* ---------------------------------------------------------------- PLY, ASCII (token level) *)
+(* cut after k complete body lines: the same threshold statement, c = lines the header promises (blank lines included) *)
+Theorem prefix_ply_ascii_lines : forall hdr lines m,
+  read_mesh {| pf_header := hdr; pf_body := BodyAscii lines |} = Ok m ->
+  exists c, (c <= length lines)%nat /\
+    (forall k, (k < c)%nat -> read_mesh {| pf_header := hdr; pf_body := BodyAscii (firstn k lines) |} = Err EEof) /\
+    (forall k, (c <= k)%nat -> read_mesh {| pf_header := hdr; pf_body := BodyAscii (firstn k lines) |} = Ok m).
+Proof. exact ply_ascii_lines_prefix. Qed.
+Print Assumptions prefix_ply_ascii_lines.
+
+(* cut at a token boundary inside line j of the vertex block (the tokens p present: at least one, fewer than the
+   element has properties): reported, never loaded as zeros *)
+Theorem prefix_ply_ascii_vertex_token : forall hdr lines m h ve bs rows rest j p,
+  read_mesh {| pf_header := hdr; pf_body := BodyAscii lines |} = Ok m ->
+  parse_header hdr = Ok h ->
+  find_last_elem "vertex"%string (h_elems h) None = Some ve ->
+  build_readers false default_groups true (e_props ve) = Ok bs ->
+  read_vertices_ascii bs (length (e_props ve)) lines (Z.to_nat (e_count ve)) = Ok (rows, rest) ->
+  (j < length lines - length rest)%nat -> p <> [] -> (length p < length (e_props ve))%nat ->
+  read_mesh {| pf_header := hdr; pf_body := BodyAscii (firstn j lines ++ [p]) |} = Err EEof.
+Proof. exact ply_ascii_vertex_line_cut. Qed.
+Print Assumptions prefix_ply_ascii_vertex_token.
+
+(* cut at a token boundary inside a face line: fewer tokens than its list properties announce ([face_used]) is a
+   reported error.  PARTIAL: proved for the reader of one face line; the full statement -- read_mesh on
+   [firstn j lines ++ [firstn m (nth j lines [])]] = Err EDeclared for every j inside the face block and
+   0 < m < face_used -- additionally needs the vertex block and the preceding face lines to be replayed, which the
+   line-level theorem above provides only for complete-line cuts; that composition is checked on every run by the
+   correspondence (every token boundary of generated files), not proved. *)
+Theorem prefix_ply_ascii_face_token_partial : forall rs k ip tp toks st st' m,
+  face_ascii rs k ip tp toks st = Ok st' -> (m < face_used rs toks)%nat ->
+  face_ascii rs k ip tp (firstn m toks) st = Err EDeclared.
+Proof. exact face_ascii_partial. Qed.
+Print Assumptions prefix_ply_ascii_face_token_partial.
+
+(* ---------------------------------------------------------------- PTS (token level) *)
+(* a valid file: n lines of w >= 3 fields.  Every token-boundary strict prefix (j complete lines, m tokens of the
+   next) is rejected -- except that a ONE-point file cut after >= 3 fields of its only line is itself a valid,
+   shorter one-point file (its data are wholly present: see no_placeholder_pts) *)
+Theorem prefix_pts : forall n w (ls : list Pts.line) j m,
+  PtsProofs.pts_valid n w ls -> (j < n)%nat -> (m < w)%nat ->
+  Pts.pts_read (Some (Z.of_nat n)) (Pts.pts_prefix ls j m) = None \/
+  (n = 1%nat /\ j = 0%nat /\ (3 <= m)%nat).
+Proof. exact PtsProofs.pts_prefix_rejected. Qed.
+Print Assumptions prefix_pts.
+
+(* ---------------------------------------------------------------- no placeholders *)
+(* PTS: every Ok result has exactly the announced number of points and every position / intensity / colour is the
+   image of tokens of its own line, which has enough fields *)
+Theorem no_placeholder_pts : forall c ls r,
+  Pts.pts_read c ls = Some r -> Pts.no_placeholderb c ls r = true.
+Proof. exact PtsProofs.pts_read_no_placeholder. Qed.
+Print Assumptions no_placeholder_pts.
+
+(* PLY: whatever a cut file decodes to IS the decode of the complete file -- every vertex, face and attribute value
+   of an Ok result is the image of bytes / tokens present in the prefix *)
+Theorem no_placeholder_ply_bin : forall hdr bytes m k m',
+  read_mesh {| pf_header := hdr; pf_body := BodyBin bytes |} = Ok m ->
+  read_mesh {| pf_header := hdr; pf_body := BodyBin (firstn k bytes) |} = Ok m' -> m' = m.
+Proof. exact ply_bin_no_placeholder. Qed.
+Print Assumptions no_placeholder_ply_bin.
+Theorem no_placeholder_ply_ascii : forall hdr lines m k m',
+  read_mesh {| pf_header := hdr; pf_body := BodyAscii lines |} = Ok m ->
+  read_mesh {| pf_header := hdr; pf_body := BodyAscii (firstn k lines) |} = Ok m' -> m' = m.
+Proof. exact ply_ascii_no_placeholder. Qed.
+Print Assumptions no_placeholder_ply_ascii.
+(* STL, SPZ: prefix_stl / prefix_spz leave no Ok result on a strict prefix other than the complete one;
+   .splat: prefix_splat gives the result exactly. *)
+
+(* ---------------------------------------------------------------- cost: work follows the input present *)
+(* stl.Read: the number of 50-byte record reads is bounded by the bytes present, whatever triangle count the header
+   announces (the loop stops at the first missing record); [read_tris_steps] is [Stl.read_tris] with a counter *)
+Theorem decode_cost_stl : forall fuel count l, (50 * read_tris_steps fuel count l <= length l + 50)%nat.
+Proof. exact stl_read_cost. Qed.
+Print Assumptions decode_cost_stl.
+Theorem decode_cost_stl_counts : forall fuel count l ts,
+  Stl.read_tris fuel count l = Some ts -> read_tris_steps fuel count l = length ts.
+Proof. exact read_tris_steps_ok. Qed.
+Print Assumptions decode_cost_stl_counts.
+Theorem decode_cost_splat : forall fuel l, (32 * read_raw_steps fuel l <= length l + 32)%nat.
+Proof. exact splat_read_cost. Qed.
+Print Assumptions decode_cost_splat.
+
+(* ---------------------------------------------------------------- non-vacuity *)
+Open Scope string_scope.
+Definition ex_hdr : list (list string) :=
+  [["ply"]; ["format"; "binary_little_endian"; "1.0"]; ["element"; "vertex"; "2"];
+   ["property"; "float"; "x"]; ["property"; "float"; "y"]; ["property"; "float"; "z"];
+   ["element"; "face"; "1"]; ["property"; "list"; "uchar"; "int"; "vertex_indices"]; ["end_header"]].
+Definition ex_body : list N :=
+  ([0;0;128;63; 0;0;0;64; 0;0;64;64;   0;0;128;64; 0;0;160;64; 0;0;192;64;   3; 0;0;0;0; 1;0;0;0; 0;0;0;0])%N.
+(* the hypotheses of the PLY theorems hold for a concrete file with faces; its threshold is the whole body: every
+   strict prefix is rejected *)
+Example ex_ply_bin :
+  (exists m, read_mesh {| pf_header := ex_hdr; pf_body := BodyBin ex_body |} = Ok m) /\
+  forallb (fun k => match read_mesh {| pf_header := ex_hdr; pf_body := BodyBin (firstn k ex_body) |} with
+                    | Err EEof => true | _ => false end) (seq 0 (List.length ex_body)) = true.
+Proof. split; [eexists; vm_compute; reflexivity|vm_compute; reflexivity]. Qed.
+Example ex_stl_splat :
+  Stl.read (firstn 133 (Stl.write Stl.zero_hdr [{| Stl.tn := (0,0,0); Stl.ta := (1,2,3); Stl.tb := (4,5,6); Stl.tc := (7,8,9); Stl.tattr := 0 |}]%N)) = None /\
+  Forall Splat.raw_ok [{| Splat.r_pos := (1,2,3); Splat.r_scale := (4,5,6); Splat.r_cb := (7,8,9,10); Splat.r_rb := (11,12,13,14) |}]%N.
+Proof.
+  split; [vm_compute; reflexivity|]. repeat constructor; vm_compute; reflexivity.
+Qed.
